@@ -88,8 +88,10 @@ def shaperName : Shaper → String
 
 def selStr (s : Option Selection) : String :=
   match s with
-  | none => "0,-,-,-"
-  | some s => s!"{b2s s.found},{s.scriptIndex},{s.chosen},{ou s.langIndex}"
+  | none => "0,-,-,-,-"
+  | some s =>
+    let req := match s.required with | some (i, t) => s!"{i}:{t}" | none => "-"
+    s!"{b2s s.found},{s.scriptIndex},{s.chosen},{ou s.langIndex},{req}"
 
 def cmds : List String :=
   ["tags", "tagslang", "langcmp", "complex", "private", "scripttags", "shaper", "tagsel", "tagfeat", "tagplan"]
